@@ -501,6 +501,14 @@ impl MediaStreamTrack for SampleStreamTrack {
 
     async fn recv(&self) -> MediaResult<MediaSample> {
         loop {
+            // Register for the wake-up *before* looking at any state. `stop()` and the drop
+            // of the last source use `notify_waiters()`, which stores no permit: a
+            // `Notified` created only after the checks below misses a close that lands
+            // in between, and the receiver then waits for ever.
+            let notified = self.notify.notified();
+            tokio::pin!(notified);
+            notified.as_mut().enable();
+
             if self.ended.load(Ordering::SeqCst) {
                 return Err(MediaError::EndOfStream);
             }
@@ -517,7 +525,7 @@ impl MediaStreamTrack for SampleStreamTrack {
                 }
             }
 
-            self.notify.notified().await;
+            notified.await;
             if self.source_closed.load(Ordering::Acquire) && self.queue.is_empty() {
                 self.ended.store(true, Ordering::SeqCst);
                 return Err(MediaError::EndOfStream);
